@@ -466,6 +466,9 @@ func init() {
 				if r.Intn(4) == 0 {
 					g.PriceCoin = true
 				}
+				if r.Intn(3) == 0 {
+					g.PriceSwarm = true
+				}
 			})
 			// one run in three also judges counterfactual variants with tight limits (the limit exactly at,
 			// and one unit beyond, what a trade or a liquidity removal really obtained): CheckTx and
